@@ -324,6 +324,17 @@ def tight_layout(lexemes, kinds):
     return "".join(out)
 
 
+def column_layout(lexemes, kinds):
+    """every token on a line of its own, flush left (so that every token starts in column 0) — except around the
+    ' in ' token, which keeps its neighbours on its line"""
+    out = []
+    for i, lx in enumerate(lexemes):
+        out.append(lx)
+        if i + 1 < len(lexemes):
+            out.append("" if (kinds[i] == "' in '" or kinds[i + 1] == "' in '") else "\n")
+    return "".join(out) + "\n"
+
+
 def layout(lexemes, kinds, rng, aggressive=True):
     """Re-lay-out a token sequence with random white space at every token boundary (outside string
     literals). The ' in ' token keeps exactly its own blanks (see known finding C14:in-whitespace)."""
